@@ -158,19 +158,18 @@ func vc03Doc(k int, st1 int64) (*TTMLIn, TTMLInItems, []string, []string, TTMLIn
 		st.ID = ids[i]
 		c := "#ff0000"
 		st.Color = &c
-		// parent: none, or any other style (several styles may share a parent), or an undefined id
-		switch (k/3 + i) % 4 {
-		case 1:
-			parent[i] = ids[(i+1)%ns]
-		case 2:
-			parent[i] = ids[0]
-		case 3:
-			if k%7 == 3 {
-				parent[i] = "undefined"
-			}
+		// parent configuration (-1 none, -2 undefined id, otherwise index of the parent): chains, shared parents,
+		// forward references, undefined parents
+		cfgs := [][3]int{{-1, -1, -1}, {-1, 0, 0}, {1, -1, 0}, {-1, 2, 0}, {2, 2, -1}, {-1, 0, 1}, {-2, -1, -1}, {1, 2, -1}}
+		pc := cfgs[(k/3)%len(cfgs)][i]
+		if pc >= ns {
+			pc = 0
 		}
-		if parent[i] == ids[i] {
-			parent[i] = ""
+		switch {
+		case pc == -2:
+			parent[i] = "undefined"
+		case pc >= 0 && pc != i:
+			parent[i] = ids[pc]
 		}
 		st.Style = parent[i]
 		doc.Styles = append(doc.Styles, st)
@@ -194,7 +193,7 @@ func vc03Doc(k int, st1 int64) (*TTMLIn, TTMLInItems, []string, []string, TTMLIn
 
 func VH_C03_PostDecode() {
 	vmode("int")
-	k := choose(vbound("shapes", 16, 48))
+	k := choose(vbound("shapes", 24, 48))
 	st1 := nondetInt64(0, 3600) * 1000000000
 	doc, items, ids, parent, sub := vc03Doc(k, st1)
 	ns := len(ids)
